@@ -49,6 +49,7 @@ func runC17(r *fw.Run, p *fw.Program) {
 	c17Prec(m)
 	c17Writes(m)
 	c17Inputs(m)
+	c17RawInput(m)
 	c17Handlers(m)
 	c17ArgsParse(m)
 	c17Flags(m)
